@@ -212,6 +212,10 @@ func (s *source) detailStmt(st ast.Stmt, out *[]string) {
 	case *ast.DeferStmt:
 		s.detailCall("defer ", x.Call, out)
 	case *ast.AssignStmt:
+		if c03FullAssign {
+			*out = append(*out, s.src(x))
+			return
+		}
 		var lhs []string
 		field := false
 		for _, l := range x.Lhs {
@@ -270,6 +274,16 @@ func (s *source) detailStmt(st ast.Stmt, out *[]string) {
 	}
 }
 
+// c03FullAssign: print every assignment with its complete right-hand side (used for the arithmetic of
+// calcExpireSeconds, where `unix := now.Unix() + int64(offset)` matters)
+var c03FullAssign bool
+
+func (e *emitter) detailDefFull(s *source, rel, goName, leanName string) {
+	c03FullAssign = true
+	defer func() { c03FullAssign = false }()
+	e.detailDef(s, rel, goName, leanName)
+}
+
 func (e *emitter) detailDef(s *source, rel, goName, leanName string) {
 	fd := s.findFunc(rel, goName)
 	if fd == nil {
@@ -306,7 +320,12 @@ func init() {
 		e.stringList("publicCodes", "the exported result codes of periodlimit.go in iota order (value = index)", names)
 		e.stringList("periodScriptCall", "arguments of ScriptRunCtx in PeriodLimit.TakeCtx", callArgs(s, pf, "PeriodLimit.TakeCtx", "ScriptRunCtx"))
 		e.detailDef(s, pf, "PeriodLimit.TakeCtx", "takeShape")
-		e.detailDef(s, pf, "PeriodLimit.calcExpireSeconds", "calcExpireShape")
+		e.detailDefFull(s, pf, "PeriodLimit.calcExpireSeconds", "calcExpireShape")
+		e.detailDef(s, pf, "PeriodLimit.Take", "takeWrapShape")
+		e.detailDef(s, pf, "Align", "alignShape")
+		e.stringList("periodInit", "fields of the PeriodLimit literal in NewPeriodLimit",
+			[]string{fieldInit(s, pf, "NewPeriodLimit", "period"), fieldInit(s, pf, "NewPeriodLimit", "quota"),
+				fieldInit(s, pf, "NewPeriodLimit", "limitStore"), fieldInit(s, pf, "NewPeriodLimit", "keyPrefix")})
 
 		e.constDef(s, tf, "tokenFormat", "tokenFormat")
 		e.constDef(s, tf, "timestampFormat", "timestampFormat")
@@ -319,5 +338,11 @@ func init() {
 		e.detailDef(s, tf, "TokenLimiter.startMonitor", "startMonitorShape")
 		e.detailDef(s, tf, "TokenLimiter.waitForRedis", "waitForRedisShape")
 		e.detailDef(s, tf, "TokenLimiter.AllowN", "allowNShape")
+		e.detailDef(s, tf, "TokenLimiter.AllowNCtx", "allowNCtxShape")
+		e.detailDef(s, tf, "TokenLimiter.Allow", "allowShape")
+		e.detailDef(s, tf, "TokenLimiter.AllowCtx", "allowCtxShape")
+		e.stringList("limiterFields", "rate, burst and store fields of the TokenLimiter literal in NewTokenLimiter",
+			[]string{fieldInit(s, tf, "NewTokenLimiter", "rate"), fieldInit(s, tf, "NewTokenLimiter", "burst"),
+				fieldInit(s, tf, "NewTokenLimiter", "store")})
 	})
 }
